@@ -1,5 +1,6 @@
 (* C06  Every command completes.  Statements only (coq/Model/Conc.v). *)
 From Nodis Require Import Model.Conc Proofs.ConcProofs Proofs.ConcGenProofs Proofs.ConcLiveProofs.
+From Nodis Require Model.RWPref Proofs.RWPrefProofs.
 From Coq Require Import ZArith List Bool Arith.
 Import ListNotations.
 Local Open Scope Z_scope.
@@ -84,3 +85,37 @@ Theorem C06_self_move_of_the_last_element_keeps_the_key :
   waiting s = [] /\ reply_of 0 s = Some 1 /\ reply_of 1 s = Some 1 /\ key_val 2 s = None.
 Proof. vm_compute. repeat split; reflexivity. Qed.
 Print Assumptions C06_self_move_of_the_last_element_keeps_the_key.
+
+(* ---- key locks with the writer preference of sync.RWMutex (coq/Model/RWPref.v) -------------------
+   Commands as lock programs (the keys they lock, in the order they lock them, released together at the
+   end); a writer that has called Lock() admits no new reader.  nodis takes key locks in argument order,
+   and a missing key takes none, so two commands can meet two keys in opposite orders: *)
+
+(* the reader form, staged on the implementation by `vh lockorder`: EXISTS a b a (a missing at first: locks b,
+   then a), EXISTS a b, RPUSH b, RPUSH a - after one step of each, nobody can move and nobody has finished *)
+Theorem C06_reader_lock_order_refuted :
+  RWPref.deadlocked (RWPref.run [0; 1; 2; 3]%nat (RWPref.start RWPref.lockorder_readers)) = true.
+Proof. exact RWPref.reader_lock_order_deadlock. Qed.
+Print Assumptions C06_reader_lock_order_refuted.
+
+(* the same two readers without the writers share both locks and finish (also staged: `vh lockorder readers`) *)
+Theorem C06_readers_alone_finish :
+  RWPref.all_finished (RWPref.run [0; 1; 0; 1; 0; 1]%nat
+     (RWPref.start [[RWPref.RL 1; RWPref.RL 0]; [RWPref.RL 0; RWPref.RL 1]]%nat)) = true.
+Proof. exact RWPref.readers_alone_finish. Qed.
+
+(* what a repair has to establish: if every command takes its key locks in one global order (strictly
+   increasing keys), then NO schedule of ANY number of commands - readers, writers, writer preference
+   included - ever reaches a state in which somebody is unfinished and nobody can move *)
+Theorem C06_ordered_acquisition_never_deadlocks : forall ps sched,
+  Forall RWPrefProofs.ordered_prog ps -> RWPref.deadlocked (RWPref.run sched (RWPref.start ps)) = false.
+Proof. exact RWPrefProofs.ordered_commands_never_deadlock. Qed.
+Print Assumptions C06_ordered_acquisition_never_deadlocks.
+
+(* the premise is met by real command mixes: two moves in the same direction, a reader of both keys and a writer of each *)
+Example C06_ordered_nonvacuous :
+  Forall RWPrefProofs.ordered_prog
+    [[RWPref.WL 0; RWPref.WL 1]; [RWPref.WL 0; RWPref.WL 1]; [RWPref.RL 0; RWPref.RL 1]; [RWPref.WL 0]; [RWPref.WL 1]]%nat.
+Proof.
+  repeat constructor; unfold RWPrefProofs.key_lt; cbn; auto.
+Qed.
